@@ -106,6 +106,11 @@ func init() {
 						files[sub+"n"+ext+"~"] = "decoy"
 						files[sub+"x"+ext+"ig"] = "decoy"
 						files[sub+"noext"] = "decoy"
+						if up := strings.ToUpper(ext); up != ext {
+							// the extension in another letter case is another extension (the content would not even parse)
+							files[sub+"upper"+up] = "decoy {{ # }}"
+							files[sub+"mixed"+ext[:len(ext)-1]+strings.ToUpper(ext[len(ext)-1:])] = "decoy @if(true)"
+						}
 						if ext != ".t" {
 							files[sub+"short.t"] = "decoy"
 						}
@@ -635,6 +640,22 @@ func runFaults(c *core.Ctx, ft faultTree, file string) {
 		check("garbage "+g, true, func() error { return os.WriteFile(p, []byte(g), 0o644) })
 	}
 	src := ft.files[file]
+	if len(src) >= 8 {
+		// faulty bytes of the same length, written with the modification time the file had when the valid tree was loaded
+		for _, head := range []string{"{{ # }}", "@if(x)", "{{ \"ab"} {
+			bad := head + strings.Repeat("x", len(src)-len(head))
+			check("same-size garbage with the old modification time: "+head, true, func() error {
+				st, err := os.Stat(p)
+				if err != nil {
+					return err
+				}
+				if err := os.WriteFile(p, []byte(bad), 0o644); err != nil {
+					return err
+				}
+				return os.Chtimes(p, st.ModTime(), st.ModTime())
+			})
+		}
+	}
 	for o := 0; o < len(src); o++ {
 		o := o
 		must := insideSpan(ft.spans[file], o) != ""
